@@ -82,6 +82,10 @@ arr { pop } forall
 // All returns the corpus.  Sizes are chosen so that interesting positions
 // (eexec switch, PFB headers, readstring payloads, DSC lines) fall on both
 // sides of the scanner's 512-byte refill boundary.
+// Rejected names the inputs of All that the readers reject (they are in the corpus for what
+// happens around them: state left behind, faults after the point where reading stops).
+var Rejected = map[string]bool{"font-pop-without-othersubr": true, "font-clear-with-closefile": true}
+
 func All(seed int64) []Input {
 	rng := rand.New(rand.NewSource(seed))
 	var out []Input
@@ -137,6 +141,57 @@ func All(seed int64) []Input {
 		if data, err := indep.WriteFont(spec, indep.Layout{Cont: c, LenIV: 4, Names: "RD", Enc: "std"}); err == nil {
 			add("font-indep-"+c, "type1", data)
 		}
+	}
+	// charstrings that lean on the reader's scratch state (OtherSubrs results, flex points): the two
+	// malformed ones come first, so that a run over the corpus meets them once before and once after
+	// the fonts that fill that state (a leak from one read into the next changes what they give)
+	{
+		stdSubrs := [][]indep.Tok{
+			{num(3), num(0), cmd("callothersubr"), cmd("pop"), cmd("pop"), cmd("setcurrentpoint"), cmd("return")},
+			{num(0), num(1), cmd("callothersubr"), cmd("return")},
+			{num(0), num(2), cmd("callothersubr"), cmd("return")},
+			{cmd("return")}}
+		flexBody := []indep.Tok{num(1), cmd("callsubr")}
+		for _, d := range [][2]int64{{30, 0}, {5, -3}, {10, -7}, {15, 0}, {15, 0}, {10, 7}, {5, 3}} {
+			flexBody = append(flexBody, num(d[0]), num(d[1]), cmd("rmoveto"), num(2), cmd("callsubr"))
+		}
+		head := []indep.Tok{num(20), num(600), cmd("hsbw"), num(100), num(200), cmd("rmoveto")}
+		tail := []indep.Tok{cmd("closepath"), cmd("endchar")}
+		cat := func(parts ...[]indep.Tok) []indep.Tok {
+			var o []indep.Tok
+			for _, q := range parts {
+				o = append(o, q...)
+			}
+			return o
+		}
+		glyphs := []struct {
+			name string
+			toks []indep.Tok
+		}{
+			{"font-flex-end-without-start", cat(head, []indep.Tok{num(50), num(190), num(200), num(0), cmd("callsubr")}, tail)},
+			{"font-pop-without-othersubr", cat(head, []indep.Tok{cmd("pop"), num(7), cmd("rlineto")}, tail)},
+			{"font-complete-flex", cat(head, flexBody, []indep.Tok{num(50), num(190), num(200), num(0), cmd("callsubr")}, tail)},
+			{"font-othersubr-result-unpopped", cat(head, []indep.Tok{num(3), num(1), num(3), cmd("callothersubr"), num(40), num(50), cmd("rlineto")}, tail)},
+		}
+		for _, g := range glyphs {
+			sp := &indep.FontSpec{FontName: "Scratch", Glyphs: []string{".notdef", "A"}, Toks: map[string][]indep.Tok{
+				".notdef": {num(0), num(250), cmd("hsbw"), cmd("endchar")}, "A": g.toks}, Subrs: stdSubrs,
+				Info: spec.Info, Private: spec.Private}
+			if data, err := indep.WriteFont(sp, indep.Layout{Cont: "pfa", LenIV: 4, Names: "RD", Enc: "std"}); err == nil {
+				add(g.name, "type1", data)
+			}
+		}
+	}
+	// CMap files without the customary "12 dict begin ... end": the entries are defined in the
+	// dictionary that was current, the procedure set's own (every reader has its own copy of it)
+	add("cmap-unwrapped-h", "readcmap", []byte("/CIDInit /ProcSet findresource begin\nbegincmap\n/CMapName /Unwrapped-H def\n/CMapType 1 def\n"+
+		"1 begincodespacerange <00> <FF> endcodespacerange\n1 begincidrange <20> <7E> 1 endcidrange\nendcmap\nCMapName currentdict /CMap defineresource pop\nend\n"))
+	add("cmap-unwrapped-v", "readcmap", []byte("/CIDInit /ProcSet findresource begin\nbegincmap\n/CIDSystemInfo 3 dict dup begin /Registry (Adobe) def /Ordering (UCS) def /Supplement 0 def end def\n"+
+		"/CMapName /Unwrapped-V def\n/CMapType 1 def\n/WMode 1 def\n1 begincodespacerange <00> <FF> endcodespacerange\n1 begincidchar <41> 7 endcidchar\nendcmap\n"+
+		"CMapName currentdict /CMap defineresource pop\nend\n"))
+	// a font program in the clear that closes its file the way an encrypted one does
+	if data, err := indep.WriteFont(spec, indep.Layout{Cont: "clear", LenIV: 4, Names: "RD", Enc: "std"}); err == nil {
+		add("font-clear-with-closefile", "type1", append(data, []byte("mark currentfile closefile\n"+strings.Repeat(strings.Repeat("0", 64)+"\n", 8)+"cleartomark\n")...))
 	}
 	return out
 }
@@ -314,6 +369,10 @@ func Erroneous(seed int64) []Input {
 	add("program-open-hex-at-end", "execute", []byte("1 2 add <41"))
 	add("program-open-proc-at-end", "execute", []byte("1 2 add { 3"))
 	add("program-typecheck", "execute", []byte("1 (x) add 5"))
+	// not PostScript at all, handed to the readers that check the start of the input
+	for k, txt := range []string{"", "x", "%", "ab", "%?", "hello, this is not a font", "StartFontMetrics 4.1", "\x80\x01\x05\x00\x00\x00hello", strings.Repeat("not a font ", 60)} {
+		add(fmt.Sprintf("not-postscript-%d", k), "type1", []byte(txt))
+	}
 	all := All(seed)
 	for _, in := range all {
 		switch in.Name {
